@@ -251,7 +251,7 @@ def _run_main(prog, tier):
                 return n.value
             return n
 
-    TAILS = ["{g}.ravel()", "{g}.flatten()", "{g}.reshape(-1)", "{g}.squeeze()", "{g}[0]", "{g}"]
+    TAILS = ["{g}.ravel()", "{g}.flatten()", "{g}.reshape(-1)", "{g}.squeeze()", "{g}.squeeze(axis=0)", "{g}.squeeze(0)", "{g}[0]", "{g}[0, :]", "{g}"]
     GATHERS = ["take_along_axis(_s, _I, 0)", "take_along_axis(_s, _I, axis=0)", "_s[_I, arange(_s.shape[1])]", "_s[_I, arange(len(_s[0]))]"]
     WIDTHS = ["(_s[_L:, :] - _s[:_n - _L, :]).argmin(axis=0)", "(_s[_L:] - _s[:_n - _L]).argmin(axis=0)"]
 
